@@ -33,6 +33,8 @@ def main(argv=None):
     spec = mod.build(a.tier)
     targets = spec.pop("targets")
     if a.tier == "thorough":
+        # second solver on every sequence / string query as well (quick tier: quantified queries only)
+        os.environ["PYVC_CONFIRM"] = "seq"
         # deeper exploration of the same obligations: larger solver budgets (fewer undecided under
         # load), one more unrolling of every bounded target, all flag counts of the flags lemma
         for t in targets:
